@@ -16,11 +16,30 @@ ASSUMPTIONS = c01.ASSUMPTIONS + [
 ]
 
 
-def build_history(rng, tier):
+def build_history(rng, tier, kind=None):
     g = hist.Gen(rng, 2)
-    kind = rng.choice(["plain", "split", "split", "longrows"])
+    kind = kind or rng.choice(["plain", "split", "split", "longrows", "manytables"])
     sts = []
-    if kind == "longrows":
+    if kind == "manytables":
+        # 7..9 user tables: the page table itself has split, so the catalog row a root-move record rewrites lives
+        # in a leaf below an internal root; then one of the tables grows across its first root split, one row per
+        # statement around the split, followed by statements that need the new root (upper-half rows, further rows)
+        nt = rng.randint(7, 9)
+        for _ in range(nt):
+            sts.append(g.create(cols=[("a", "int", 0), ("b", "varchar", 255)]))
+        name = sts[rng.randrange(nt)]["table"]
+        first = rng.choice([6, 7, 8])
+        sts.append({"k": "insert", "table": name, "cols": [], "rows": [[i, "r%d" % i] for i in range(first)]})
+        for i in range(first, first + rng.randint(2, 4)):
+            sts.append({"k": "insert", "table": name, "cols": [], "rows": [[i, "r%d" % i]]})
+            r = rng.random()
+            if r < 0.4:
+                sts.append({"k": "delete", "table": name, "where": [[(("col", "", "a"), "=", rng.randrange(max(0, i - 3), i + 1))]]})
+            elif r < 0.7:
+                sts.append({"k": "update", "table": name, "sets": [("b", "u%d" % i)],
+                            "where": [[(("col", "", "a"), ">=", max(0, i - 2))]]})
+        sts.append({"k": "insert", "table": name, "cols": [], "rows": [[100 + j, "z"] for j in range(rng.choice([1, 5]))]})
+    elif kind == "longrows":
         # rows within the last bytes of the 400-byte limit: their log records are the longest there are
         sts.append(g.create(cols=[("a", "int", 0), ("pad", "varchar", 400)]))
         name = sts[0]["table"]
@@ -144,7 +163,7 @@ def run(ctx):
         hists = [(ctx.replay["statements"], set(ctx.replay.get("flushes", [])))]
     else:
         n = 14 if ctx.tier == "quick" else 150
-        hists = [build_history(ctx.rng, ctx.tier) for _ in range(n)]
+        hists = [build_history(ctx.rng, ctx.tier, "manytables")] + [build_history(ctx.rng, ctx.tier) for _ in range(n - 1)]
     evs, outs, ccases, owner = run_all(ctx, hists)
     mm, sm = evaluate(ctx, "c03", ccases)
     partial = sum(1 for _, _, m in ccases if 0 < m["records"])
